@@ -409,6 +409,7 @@ Section S.
       { match goal with |- Os _ (match ?x with Some _ => _ | None => _ end) => destruct x as [v|] end; [|exact I].
         destruct (str_eqb _ _); [exact G|exact I]. }
       match goal with |- Os _ (if ?c then _ else _) => destruct c end; [exact I|].
+      match goal with |- Os _ (if ?c then _ else _) => destruct c end; [exact I|].
       eapply Os_bind; [apply Os_any|]. intros [tid t1] _.
       assert (SInv n0 (with_tabs st t1)) as G1 by exact G.
       eapply Os_bind; [apply (add_node_sound n0 (with_tabs st t1) _ G1); [reflexivity|reflexivity|discriminate]|].
@@ -418,7 +419,7 @@ Section S.
     - exact I.
     - cbn. destruct G as (A & B & C & D). split; [exact A|]. split; [exact B|]. split; [exact C|]. cbn. constructor.
     - destruct (str_eqb _ _).
-      + eapply Os_bind; [apply Os_any|]. intros uri _. apply builder_prefix_sound. exact G.
+      + eapply Os_bind; [apply Os_any|]. intros uri _. destruct uri; [exact I|]. apply builder_prefix_sound. exact G.
       + destruct (_ && _).
         * eapply Os_bind; [apply Os_any|]. intros uri _. apply builder_prefix_sound. exact G.
         * apply builder_attribute_sound. exact G.
